@@ -152,6 +152,20 @@ static uint64_t index_digest(const lzma_index *i)
 	return h;
 }
 
+// "Unchanged" also means: behaves like an untouched object from here on. The same continuation (other Stream Flags
+// for the last Stream, three more Records) is applied with the failure plan switched off; the digest afterwards is
+// compared with that of a twin that never saw the failed call.
+static uint64_t continue_and_digest(alloc_mon *m, lzma_index *i)
+{
+	int64_t fa = m->fail_at, ff = m->fail_from; uint32_t fp = m->fail_prob_num; alloc_mon_reset_plan(m);
+	lzma_stream_flags sf = { .version = 0, .backward_size = 12, .check = LZMA_CHECK_CRC64 }; (void)lzma_index_stream_flags(i, &sf);
+	(void)lzma_index_stream_padding(i, 8);
+	for (unsigned k = 0; k < 3; ++k) (void)lzma_index_append(i, &m->a, 100 + k, 1000 + k);
+	uint64_t d = index_digest(i);
+	m->fail_at = fa; m->fail_from = ff; m->fail_prob_num = fp;
+	return d;
+}
+
 static int sc_index_append(sc *c)
 {
 	lzma_index *i = lzma_index_init(&c->m->a);
@@ -164,6 +178,15 @@ static int sc_index_append(sc *c)
 			st = S_MEM;
 			if (before && index_digest(i) != before) c->caller_object_changed = true;
 			if (lzma_index_block_count(i) != k) c->caller_object_changed = true;
+			{
+				// twin with the same k Records that never saw a failed call
+				int64_t fa = c->m->fail_at, ff = c->m->fail_from; uint32_t fp = c->m->fail_prob_num; alloc_mon_reset_plan(c->m);
+				lzma_index *t = lzma_index_init(&c->m->a);
+				for (unsigned q = 0; q < k; ++q) (void)lzma_index_append(t, &c->m->a, 5 + q, q * 3);
+				c->m->fail_at = fa; c->m->fail_from = ff; c->m->fail_prob_num = fp;
+				if (continue_and_digest(c->m, i) != continue_and_digest(c->m, t)) c->caller_object_changed = true;
+				lzma_index_end(t, &c->m->a);
+			}
 			break;
 		}
 		if (r != LZMA_OK) { lzma_index_end(i, &c->m->a); BAD(c, "append returned %s", lzma_ret_name(r)); }
@@ -195,6 +218,11 @@ static int sc_index_cat(sc *c)
 	if (r == LZMA_MEM_ERROR) {
 		st = S_MEM;
 		if (index_digest(a) != da || index_digest(b) != db) c->caller_object_changed = true;
+		else {
+			lzma_index *ta = make_index(c->m, 700, LZMA_CHECK_CRC32), *tb = make_index(c->m, 30, LZMA_CHECK_SHA256);
+			if (continue_and_digest(c->m, a) != continue_and_digest(c->m, ta) || continue_and_digest(c->m, b) != continue_and_digest(c->m, tb)) c->caller_object_changed = true;
+			lzma_index_end(ta, &c->m->a); lzma_index_end(tb, &c->m->a);
+		}
 		lzma_index_end(b, &c->m->a);
 	} else if (r != LZMA_OK) { lzma_index_end(a, &c->m->a); lzma_index_end(b, &c->m->a); BAD(c, "cat returned %s", lzma_ret_name(r)); }
 	else if (lzma_index_block_count(a) != 730 || lzma_index_checks(a) != ((1u << LZMA_CHECK_CRC32) | (1u << LZMA_CHECK_SHA256))) { lzma_index_end(a, &c->m->a); BAD(c, "cat result wrong"); }
